@@ -387,7 +387,7 @@ fn judge(s: &Scn, o: &Obs) -> Result<bool, (String, String, bool)> {
 pub fn scenarios(tier: Tier, seed: u64) -> Vec<Scn> {
     let mut v = Vec::new();
     let pools = [(1usize, 1usize), (1, 4), (2, 100)];
-    let njit = tier.pick(1, 12);
+    let njit = tier.pick(1, 30);
     let mut rng = Rng::new(seed);
     for idle in [0u64, 1, 2] {
         for flag in [FlagPlan::NoFlag, FlagPlan::Before, FlagPlan::During, FlagPlan::Never] {
